@@ -2,7 +2,7 @@ import PydraModel.Graph.Model
 /-
 Engine `Sched` (DESIGN §5.5): workflow scheduling of pydra/engine/submitter.py as the tree is NOW
 (after the repairs D10 `running` loop guards `job.done`, D11 `len(task_futures) < max_concurrent`,
-D12 `DiGraph.sorting` raises on a cycle).
+D12 `DiGraph.sorting` raises on a cycle, D64 predecessors are refreshed before the errored test).
 
 Mirrored code
 * `NodeExecution.started / done / update_status / get_runnable_tasks / start`
@@ -134,15 +134,25 @@ def anyNotDone (w : World) : NSMap → List NodeId → Bool × NSMap
 def inputsOf (wf : Wf) (ns : NSMap) (n : NodeId) : List (List Val) :=
   (wf.preds n).map (fun p => (ns.get p).cks.map wf.body)
 
-/-- `NodeExecution.get_runnable_tasks` (the live `if True:` branch): returns the node's `queued` keys -/
+/-- `all([p.done for p in predecessors])`: a list, so EVERY predecessor is refreshed (no short-circuit) -/
+def allDoneAll (w : World) : NSMap → List NodeId → Bool × NSMap
+  | ns, [] => (true, ns)
+  | ns, p :: ps =>
+    let r := nodeDone w ns p
+    let r2 := allDoneAll w r.2 ps
+    (r.1 && r2.1, r2.2)
+
+/-- `NodeExecution.get_runnable_tasks` (the live `if True:` branch): returns the node's `queued` keys.
+    Order after the D64 repair: first every predecessor is refreshed (`predecessors_done`), then the
+    `p.errored or p.unrunnable` test and the start decision are taken from that one snapshot. -/
 def nodeRunnable (wf : Wf) (w : World) (ns : NSMap) (n : NodeId) : NSMap × List Nat :=
   let ps := wf.preds n
-  if ps.any (fun p => !(ns.get p).errored.isEmpty || (ns.get p).unrunnable) then
+  let r := allDoneAll w ns ps
+  if ps.any (fun p => !(r.2.get p).errored.isEmpty || (r.2.get p).unrunnable) then
     -- self.unrunnable = {None: unrunnable}; self.blocked = {}; assert self.done
-    let ns1 := upd w (setN ns n { ns.get n with unrunnable := true, blk := some [] }) n
+    let ns1 := upd w (setN r.2 n { r.2.get n with unrunnable := true, blk := some [] }) n
     (ns1, (ns1.get n).queued)
   else
-    let r := allDone w ns ps
     if r.1 then
       let s0 := r.2.get n
       -- if not self.started: self.start()
@@ -151,6 +161,28 @@ def nodeRunnable (wf : Wf) (w : World) (ns : NSMap) (n : NodeId) : NSMap × List
         { s0 with blk := some (List.range cks.length), cks := cks }
       let inds := List.range s1.cks.length
       -- if self.blocked: for i in inds: runnable.append(self.blocked.pop(i));  self.queued.update(runnable)
+      let s2 := match s1.blk with
+        | some b => if b.isEmpty then s1 else
+            { s1 with blk := some (b.filter (fun i => !inds.contains i)), queued := s1.queued ++ inds }
+        | none => s1
+      (setN r.2 n s2, s2.queued)
+    else (r.2, (r.2.get n).queued)
+
+/-- the order BEFORE the D64 repair, kept as documentation (`C14_stale_tables_witness`): the
+    `p.errored or p.unrunnable` test ran on the tables as they were, and only then `all(p.done ...)` refreshed them -/
+def nodeRunnableOld (wf : Wf) (w : World) (ns : NSMap) (n : NodeId) : NSMap × List Nat :=
+  let ps := wf.preds n
+  if ps.any (fun p => !(ns.get p).errored.isEmpty || (ns.get p).unrunnable) then
+    let ns1 := upd w (setN ns n { ns.get n with unrunnable := true, blk := some [] }) n
+    (ns1, (ns1.get n).queued)
+  else
+    let r := allDone w ns ps
+    if r.1 then
+      let s0 := r.2.get n
+      let s1 := if s0.started then s0 else
+        let cks := wf.mkJobs n (inputsOf wf r.2 n)
+        { s0 with blk := some (List.range cks.length), cks := cks }
+      let inds := List.range s1.cks.length
       let s2 := match s1.blk with
         | some b => if b.isEmpty then s1 else
             { s1 with blk := some (b.filter (fun i => !inds.contains i)), queued := s1.queued ++ inds }
